@@ -36,6 +36,9 @@ CLAIMED = {
  "C11": ("Coq proof (uriEqualsUri characterised by a key function; injective on NUL-free texts) + all-pairs correspondence",
          "Theorems: equality holds iff all components are identical (IP hosts by value, absent never equal to empty) for NUL-free texts; reflexive, symmetric, transitive for all values incl. NULL; identical components give identical text. Tied to src/UriCompare.c by all ordered pairs over a pool of raw objects differing in one component and parsed texts, plus pairs of library-produced objects compared with their recomposed texts. The converse text direction is checked on library-produced objects at run time (known finding D6).",
          TB, "5 C11"),
+ "C12": ("Coq proof (erasure of the memory tier onto the pure tier; block invariant through the make-owner and normalization engines) + provenance correspondence (source buffers overwritten and released, results re-read)",
+         "Theorems (fault-free plan, every input): the memory-tier parser, resolution and reference creation erase to the pure-tier functions and produce borrowed objects without text blocks; make-owner and normalization with a non-zero mask of a borrowed object yield an object that owns every present non-empty text in pairwise distinct blocks all handed out during the call (none live before), with the same value as the pure tier computes and the same recomposed text for make-owner; an owned object is normalized in place within its own blocks; mask 0 and make-owner of an owned object are no-ops. 'The source text is never written' and 'read-only arguments are unchanged' hold by construction of the model (inputs are values) and are observed on the implementation: the check poisons and frees the source after the call and compares.",
+         TB + " Partial: writes into caller memory are runtime behaviour (observed, ASan); distinctness is stated for text blocks, not for nodes and address blocks.", "5 C12"),
  "C13": ("Coq proof (ledger invariant [owns]/[balanced] by induction over each engine and over arbitrary operation histories) on the memory tier of the model + allocation-trace correspondence + libc interposition run",
          "Theorems for every text/object, every well-formed ledger state, every fault plan and unbounded sizes: free-members releases exactly the object's blocks, each live, and is idempotent; parse, make-owner, normalize (any mask, borrowed or owned), resolve and create-reference leave the ledger equal to 'blocks of the result + what was there', with no bad release; any history of these steps over a store of objects from the empty ledger stays balanced and ends with no live block once every object is released. Tied to the code by comparing complete allocation traces (request sizes in characters, order, releases) of model and implementation for every call. The clauses 'nothing bypasses the manager' and 'incomplete manager rejected first' are observed on the implementation (interposed libc allocator, pool manager) and not theorems; the three query functions have no memory-tier model yet (history theorems carry _partial).",
          TB + " The ledger model has one allocator by construction; block contents are not modelled.", "5 C13"),
@@ -45,6 +48,9 @@ CLAIMED = {
  "C15": ("Coq proof (refinement of an ideal allocator by simulation, induction over operation histories, size_t arithmetic mod 2^64) + history correspondence against the real uriCompleteMemoryManager",
          "Theorems for every finite history of malloc/calloc/realloc/reallocarray/free with arbitrary size_t arguments and any backend failure plan: the decorated manager refines the ideal allocator; every backend block is released exactly once with the backend's own pointer; nothing stays allocated once the caller freed everything. Tied to src/UriMemory.c by random and enumerated histories over a logging, failure-injecting backend.",
          TB, "5 C15"),
+ "C19": ("Coq proof (allocation requests of make-owner and normalization are a plan counted in characters, mapped to bytes by the character size only) + every check runs the char and wchar_t builds against the one model",
+         "The model is written once over code points, so equality of codes, components, texts, offsets, counts and sizes between the two APIs is true of the model by construction; what ties both C builds to it is that this check (and every other one) runs the narrow and the wide build, plain and under ASan with exact-size buffers, on the same requests and compares all outputs, error offsets and required sizes field by field, over texts that include equal-length components differing late and code points above 255 for the wide build. Theorems: for the only model functions that mention sizeof(URI_CHAR), every request of make-owner / normalization is length*csize for a text or a structure size independent of csize; the request plan is a function of mask and value only; two character sizes give the same return code, value and trace in characters.",
+         TB + " Partial by nature: identity of the two builds is established by the differential run, the theorems pin the characters-not-bytes contract.", "5 C19"),
  "C20": ("Coq proof (schedule independence and race freedom of footprint-disciplined programs, induction over the schedule) + symbol-table scan, thread digests and ThreadSanitizer on the freshly built library",
          "Theorems for every program, store and schedule: if each step changes only locations its thread owns and depends only on those and on shared read-only ones, every interleaving gives each thread exactly its solo-run view, shared inputs never change and no location is accessed by two threads with a writer among them. Partial by nature: that the C functions are disciplined is observed, not proved: writable symbols of the built objects (known finding D11: defaultMemoryManager), 8-16 threads sharing a base URI, a query list and the input strings with per-thread digests equal to the single-threaded run, the same under ThreadSanitizer.",
          TB + " The model's operations are Gallina functions of their arguments, so they have no hidden state by construction; data races and writable globals are properties of the compiled code.", "5 C20"),
